@@ -23,6 +23,7 @@ pub struct Adversary {
     /// injections of datagrams that belong to no connection (`inject_kind`)
     stray_count: u64,
     stray_last_at: u64,
+    spoof_count: u64,
 }
 
 /// address of the off-path attacker that sends datagrams belonging to no connection; replies to it are
@@ -37,6 +38,16 @@ pub const SPOOFER: ([u8; 4], u16) = ([10, 77, 77, 77], 7777);
 
 fn spoofer_addr() -> s2n_quic_core::inet::SocketAddress {
     std::net::SocketAddr::from(SPOOFER).into()
+}
+
+/// k-th spoofed source address (10.77.77.(77 + k), k = 0 is `SPOOFER`)
+fn spoofer_addr_k(k: u64) -> s2n_quic_core::inet::SocketAddress {
+    std::net::SocketAddr::from(([10, 77, 77, 77u8.wrapping_add(k as u8)], SPOOFER.1)).into()
+}
+
+fn is_spoofer(a: &s2n_quic_core::inet::SocketAddress) -> bool {
+    let s = format!("{a}");
+    s.starts_with("10.77.77.")
 }
 
 fn attacker_addr() -> s2n_quic_core::inet::SocketAddress {
@@ -54,6 +65,7 @@ impl Adversary {
             serial: 0,
             stray_count: 0,
             stray_last_at: u64::MAX,
+            spoof_count: 0,
         }
     }
 
@@ -177,7 +189,7 @@ impl Network for Adversary {
                 trace::line(format!("wire {now} {src} {dst} {len} to-attacker - {hd}"));
                 continue;
             }
-            if packet.path.remote_address.0 == spoofer_addr() {
+            if is_spoofer(&packet.path.remote_address.0) {
                 // datagram for the spoofed source address of a replayed client datagram: recorded, delivered nowhere
                 trace::line(format!("wire {now} {src} {dst} {len} to-spoofed - {hd}"));
                 continue;
@@ -334,7 +346,15 @@ impl Network for Adversary {
             if !cands.is_empty() {
                 let k = cands[self.rng.below(cands.len() as u64) as usize];
                 let mut p = self.seen[k].clone();
-                p.path.local_address = spoofer_addr().into();
+                let n_addrs = self.cfg.spoof_addrs.max(1);
+                let which = self.spoof_count % n_addrs;
+                self.spoof_count += 1;
+                p.path.local_address = spoofer_addr_k(which).into();
+                if self.cfg.spoof_garbage {
+                    for i in 21..p.payload.len() {
+                        p.payload[i] = self.rng.next() as u8;
+                    }
+                }
                 let at = now + self.cfg.delay_ms * 1000;
                 trace::line(format!(
                     "wire {now} {} {} {} spoof {at} {}",
